@@ -61,15 +61,27 @@ class EndpointLog:
         return False
 
 
-def run_case(name, m, t, no_prss, seed, mode):
-    prog = programs.PROGRAMS[name][0]()
-    net = SimNet(m, t, no_prss=no_prss, seed=seed, sched=Scheduler(seed, mode), max_steps=1_500_000)
+def run_case(name, m, t, no_prss, seed, mode, no_barrier=False):
+    prog = FIRE_AND_FORGET if name == 'fire_and_forget' else programs.PROGRAMS[name][0]()
+    net = SimNet(m, t, no_prss=no_prss, seed=seed, sched=Scheduler(seed, mode), max_steps=1_500_000,
+                 no_barrier=no_barrier)
     with EndpointLog() as elog:
         try:
             net.run(prog)
         except (Deadlock, PartyError) as exc:
             return None, f'{type(exc).__name__}: {str(exc)[:300]}', None
     return net, None, elog
+
+
+async def FIRE_AND_FORGET(mpc):
+    """reaches shutdown with coroutines pending that still need communication rounds"""
+    secint = mpc.SecInt(16)
+    x = mpc.input(secint(mpc.pid + 2))
+    y = x[0]
+    for _ in range(6):
+        y = y * x[-1]
+    mpc.output(y)            # never awaited
+    return await mpc.output(x[0])
 
 
 def check_wire(net, elog):
@@ -107,17 +119,19 @@ def check_wire(net, elog):
 def run(ctx):
     rng = ctx.rng
     lines, exps, metas = [], [], []
-    names = list(programs.PROGRAMS)
+    names = list(programs.PROGRAMS) + ['fire_and_forget']
     n_sched = ctx.scale(3, 30)
     for (m, t, no_prss) in c08.cfg_list(ctx):
         for name in names:
-            if not c08.usable(name, m, no_prss):
+            if name != 'fire_and_forget' and not c08.usable(name, m, no_prss):
                 continue
             for k in range(n_sched):
                 seed = rng.randrange(10**9)
                 mode = c08.MODES[k % 4]
-                net, err, elog = run_case(name, m, t, no_prss, seed, mode)
-                rep = {'kind': 'wire', 'program': name, 'm': m, 't': t, 'no_prss': no_prss, 'seed': seed, 'mode': mode}
+                nb = (k % 3 == 1)
+                net, err, elog = run_case(name, m, t, no_prss, seed, mode, nb)
+                rep = {'kind': 'wire', 'program': name, 'm': m, 't': t, 'no_prss': no_prss, 'seed': seed, 'mode': mode,
+                       'no_barrier': nb}
                 if err:
                     ctx.violation(f'C09: run does not complete: {err}', rep)
                     return
@@ -176,7 +190,8 @@ def search(ctx):
 
 
 def replay(ctx, data):
-    net, err, elog = run_case(data['program'], data['m'], data['t'], data['no_prss'], data['seed'], data['mode'])
+    net, err, elog = run_case(data['program'], data['m'], data['t'], data['no_prss'], data['seed'], data['mode'],
+                              data.get('no_barrier', False))
     if err:
         return False, err
     msg, _ = check_wire(net, elog)
